@@ -970,6 +970,30 @@ func genXConnSrc(repo string) (string, error) {
 			ok = false
 			b.WriteString("(* streamConn.newClientStream not found *)\n")
 		}
+		// handleResponse (Model/XConn.v XResponse is ONE step: lookup by the frame's id, delete that id, then deliver): lookup
+		// and delete sit in one clientMutex critical section, the delete is keyed by the id of the frame, nothing is deferred,
+		// and the receiver is called after the unlock - so a stream created while the response is being delivered (a retry
+		// re-using the stream object of the request context) meets a table that no longer holds the answered id
+		respAtomic := false
+		if fs, ff, err := ParseGoFile(repo, "pkg/stream/xprotocol/conn.go"); err != nil {
+			return "", err
+		} else if fd := FindFunc(ff, "streamConn", "handleResponse"); fd != nil {
+			txt := exprStr(fs, fd.Body)
+			idx := func(sub string) int { return strings.Index(txt, sub) }
+			iLock, iLook, iDel, iUnl, iRecv := idx("sc.clientMutex.Lock()"), idx("clientStream,ok:=sc.clientStreams[requestId]"),
+				idx("delete(sc.clientStreams,requestId)"), strings.LastIndex(txt, "sc.clientMutex.Unlock()"), idx("clientStream.receiver.OnReceive(")
+			respAtomic = strings.HasPrefix(txt, "{requestId:=frame.GetRequestId()") && iLock >= 0 && iLock < iLook && iLook < iDel && iDel < iUnl && iUnl < iRecv &&
+				!strings.Contains(txt, "defer") && !strings.Contains(txt, "RLock") && strings.Count(txt, "delete(") == 1 &&
+				strings.Count(txt, "sc.clientMutex.Lock()") == 1
+			if iLook < 0 || iRecv < 0 {
+				ok = false
+				b.WriteString("(* streamConn.handleResponse not recognised *)\n")
+			}
+		} else {
+			ok = false
+			b.WriteString("(* streamConn.handleResponse not found *)\n")
+		}
+		fmt.Fprintf(&b, "Definition xsrc_response_delete_atomic_before_deliver : bool := %v.\n", respAtomic)
 		fmt.Fprintf(&b, "Definition xsrc_reset_deletes_unconditionally : bool := %v.\n", resetDeletes)
 		fmt.Fprintf(&b, "Definition xsrc_client_stream_fresh : bool := %v.\n", freshStream)
 	}
